@@ -151,6 +151,26 @@ def special(acc, tier):
                 hits = sum(1 for e in procs[0].log if type(e).__name__ == "CacheHitEvent")
                 acc.counters[f"cache_hits[{name},{runner},run{round_}]"] = hits
                 check_exec(acc, x, procs, {"family": "cached:" + name, "program": pp, "inputs": inputs, "extra": {}, "faults": [], "eh": "raise", "mode": f"{runner}-cached-run{round_}", "choices": [], "special": "cache"})
+    # output collection fails after every node succeeded (selected output of the branch not taken, on_missing='error')
+    for runner in ("sync", "async"):
+        for eh in ("raise", "continue"):
+            pp = T.set_async(copy.deepcopy(T.route3(True)), runner == "async")
+            pp["nodes"][1]["behav"] = {"seq": ["pq"]}
+            x, procs = _exec(pp, ins, {"select": ["x0"], "on_missing": "error"}, runner, frozenset(), eh, None, lambda h: [Rec(), ARec(h)] if runner == "async" else [Rec()], False)
+            acc.evaluations += 1
+            acc.traces += 1
+            acc.counters["output_collection_failures"] += 1 if (x.exc is not None or x.result.status.value == "failed") else 0
+            top = "failed"
+            for r in procs:
+                for sym, msg in span_tree_violations(r.log, top_status=top):
+                    acc.violation({"symptom": sym, "processor": repr(r)}, {"family": "collect-fails", "program": pp, "inputs": ins, "extra": {}, "faults": [], "eh": eh, "mode": f"{runner}-collect", "choices": [], "special": "collect"}, msg)
+            # the same inside a map item
+            xm, procs = _exec(pp, {"e0": [["i", 0], ["i", 1]]}, {"method": "map", "map_over": "e0", "select": ["x0"], "on_missing": "error"}, runner, frozenset(), eh, None, lambda h: [Rec()], False)
+            acc.evaluations += 1
+            for r in procs:
+                rs = {} if xm.exc is not None else {i.run_id: i.status.value for i in xm.result}
+                for sym, msg in span_tree_violations(r.log, top_status="failed" if xm.exc is not None else "completed", run_status=rs):
+                    acc.violation({"symptom": sym, "processor": repr(r)}, {"family": "collect-fails-map", "program": pp, "inputs": ins, "extra": {}, "faults": [], "eh": eh, "mode": f"{runner}-collect-map", "choices": [], "special": "collect"}, msg)
     # rejected calls: omit the required input
     for name, p, _ in progs:
         for runner in ("sync", "async"):
